@@ -308,6 +308,7 @@ fn rice_cost(res: &[i64], k: u32) -> u64 {
     res.iter().map(|r| (fold(*r) >> k) + 1 + k as u64).sum()
 }
 
+#[allow(dead_code)]
 struct SubOut {
     fallback: Option<String>,
 }
